@@ -682,7 +682,7 @@ func shapeRelayHealth(pk map[string]*pkgInfo) []fact {
 	add("layer4_Connection_has_CloseWrite", "bool", b2s(hasMethod("layer4", "Connection", "CloseWrite")), "*layer4.Connection declares a CloseWrite method (its embedded net.Conn interface does not promote one)")
 	add("l4throttle_throttledConn_has_CloseWrite", "bool", b2s(hasMethod("l4throttle", "throttledConn", "CloseWrite")), "l4throttle.throttledConn declares a CloseWrite method")
 	add("l4tee_nextConn_has_CloseWrite", "bool", b2s(hasMethod("l4tee", "nextConn", "CloseWrite")), "l4tee.nextConn declares a CloseWrite method")
-	add("l4proxyprotocol_conn_has_CloseWrite", "bool", b2s(hasMethod("l4proxyprotocol", "conn", "CloseWrite") || hasMethod("l4proxyprotocol", "ppConn", "CloseWrite")), "l4proxyprotocol wraps the third-party *proxyprotocol.Conn in a local type declaring CloseWrite")
+	add("l4proxyprotocol_conn_has_CloseWrite", "bool", b2s(ppWrapperHasCloseWrite(pk["l4proxyprotocol"])), "the connection the proxy_protocol handler passes to cx.Wrap is a local struct type embedding *proxyprotocol.Conn that declares CloseWrite")
 	px := pk["l4proxy"]
 	if px != nil {
 		up, down := 0, 0
@@ -717,4 +717,88 @@ func shapeRelayHealth(pk map[string]*pkgInfo) []fact {
 		}
 	}
 	return out
+}
+
+// ppWrapperHasCloseWrite: does Handler.Handle of package l4proxyprotocol hand a value of a local
+// struct type that embeds (*)proxyprotocol.Conn and declares a CloseWrite method to cx.Wrap?
+// (appended by b-c03)
+func ppWrapperHasCloseWrite(p *pkgInfo) bool {
+	if p == nil {
+		return false
+	}
+	// local struct types embedding proxyprotocol.Conn
+	wrappers := map[string]bool{}
+	for _, f := range p.files {
+		for _, d := range f.Decls {
+			gd, ok := d.(*ast.GenDecl)
+			if !ok || gd.Tok != token.TYPE {
+				continue
+			}
+			for _, sp := range gd.Specs {
+				ts := sp.(*ast.TypeSpec)
+				st, ok := ts.Type.(*ast.StructType)
+				if !ok {
+					continue
+				}
+				for _, fld := range st.Fields.List {
+					if len(fld.Names) != 0 {
+						continue
+					}
+					t := fld.Type
+					if se, ok := t.(*ast.StarExpr); ok {
+						t = se.X
+					}
+					if sel, ok := t.(*ast.SelectorExpr); ok && sel.Sel.Name == "Conn" {
+						if id, ok := sel.X.(*ast.Ident); ok && id.Name == "proxyprotocol" {
+							wrappers[ts.Name.Name] = true
+						}
+					}
+				}
+			}
+		}
+	}
+	litType := func(e ast.Expr) string {
+		if ue, ok := e.(*ast.UnaryExpr); ok && ue.Op == token.AND {
+			e = ue.X
+		}
+		if cl, ok := e.(*ast.CompositeLit); ok {
+			if id, ok := cl.Type.(*ast.Ident); ok {
+				return id.Name
+			}
+		}
+		return ""
+	}
+	fd := p.findFunc("Handler", "Handle")
+	if fd == nil {
+		return false
+	}
+	// what each local variable of Handle was last assigned from a composite literal
+	assigned := map[string]string{}
+	wrapped := ""
+	ast.Inspect(fd.Body, func(n ast.Node) bool {
+		switch x := n.(type) {
+		case *ast.AssignStmt:
+			for i, l := range x.Lhs {
+				if id, ok := l.(*ast.Ident); ok && i < len(x.Rhs) {
+					if t := litType(x.Rhs[i]); t != "" {
+						assigned[id.Name] = t
+					} else {
+						delete(assigned, id.Name)
+					}
+				}
+			}
+		case *ast.CallExpr:
+			if se, ok := x.Fun.(*ast.SelectorExpr); ok && se.Sel.Name == "Wrap" && len(x.Args) == 1 {
+				if t := litType(x.Args[0]); t != "" {
+					wrapped = t
+				} else if id, ok := x.Args[0].(*ast.Ident); ok {
+					wrapped = assigned[id.Name]
+				} else {
+					wrapped = ""
+				}
+			}
+		}
+		return true
+	})
+	return wrapped != "" && wrappers[wrapped] && p.findFunc(wrapped, "CloseWrite") != nil
 }
